@@ -222,7 +222,7 @@ pub fn run_case(idents: &[Ident], idx: u64, rng: &mut Rng, thorough: bool, hist:
                 }
             };
             let malicious_weight: u64 = *rng.pick(&[0u64, 0, 1, 2, 4]);
-            let mut gen_packet = |recs: &mut Recs, rng: &mut Rng, k: u64| -> Vec<usize> {
+            let gen_packet = |recs: &mut Recs, rng: &mut Rng, k: u64| -> Vec<usize> {
                 let mut v = vec![];
                 for _ in 0..k {
                     let cat = if rng.below(8) < malicious_weight { rng.range(3, 6) } else { rng.below(3) };
